@@ -16,6 +16,7 @@ TABLE = [
  ("regress/C04/approve-continues-after-transport-error.json", "0f580dc"),
  ("regress/C04/rejected-after-error-state.json", "0f580dc"),
  ("regress/C11/setup-after-end-3436f10.json", "3436f10"),
+ ("regress/C18/cancel-on-completed-connection.json", "7123785"),
 ]
 pairs = TABLE
 if len(sys.argv) > 2:
